@@ -36,19 +36,19 @@ META = {
                 text="Full Cartesian product of request type x code x token x Uri-Path x option subsets (<=2/3; plus a repetition sweep: every defined option twice; plus the <=1-option product on a session the peer last used with the other destination class) x destination x resource table injected as datagrams into a real server endpoint; replies are compared with an independent decision table of the statement's rules (reply count, token/mid echo, code priority order, handler invocation, No-Response and multicast suppression). The third space also uses message ids 0x0000 / 0xFFFF.",
                 note="Request datagrams only (responses are C07); where the statement is silent nothing is compared."),
     "C11": dict(engine="vx-netsim", technique="exhaustive enumeration of observe operation sequences x deviation-bounded schedules with a per-observer reference automaton",
-                text="All register/change/cancel/re-register/RST/delete/close operation sequences up to depth 4/6 by 1-2 clients and a raw observer on 2 resources, each under all schedules with <=1/2 deviations; a per-observer automaton checks tokens, strictly increasing Observe values (RFC 7641 serial order), a CON at least every sixth notification, eventual notification of the last state, silence after deregistration, single entry on re-registration, session kept alive. Deviations include the socket refusing the first transmission after a change once (the notification has to be tried again).",
+                text="All register/change/cancel/re-register/RST/delete/close operation sequences up to depth 4/6 by 1-2 clients and a raw observer on 2 resources, each under all schedules with <=1/2 deviations; a per-observer automaton checks tokens, strictly increasing Observe values (RFC 7641 serial order), a CON at least every sixth notification, eventual notification of the last state, silence after deregistration, single entry on re-registration, session kept alive. Deviations include the socket refusing the first transmission after a change once (the notification has to be tried again). A family in which both observers use equal token bytes (on different sessions).",
                 note="Bounds per evidence."),
     "C12": dict(engine="vx-netsim", technique="exhaustive enumeration of session-lifecycle operation sequences (UDP and raw TCP peers, observations, async, references, disconnects, time jumps) with teardown after every prefix against a reference model of events and reference holders, ASan/LSan and allocator counters",
-                text="All sequences up to depth 5/7 of requests from distinct/identical peers, observe, async, application reference/release, time jumps across the session timeout and context teardown; session identity per peer tuple, one NEW/DEL event pair per server session, no reclamation while referenced, idle reclamation and eviction, and a leak/double-free/use-after-free-clean teardown (ASan, LSan, per-tag allocation counters). Stage c12many: 1..50 distinct peers x max_idle_sessions {0,1,2,3,7,N-1,N,N+1} x 6 request patterns against a model of the idle set (oldest idle reclaimed at the limit, held sessions never). Stage c12cli: two client sessions of one context, all sequences (depth 6/7) of send CON/NON, application release/reference, peer answer/reset, retransmission timer and give-up followed by teardown; a session must never be freed while the application or a queued Confirmable holds it and exactly once in the end.",
+                text="All sequences up to depth 5/7 of requests from distinct/identical peers, observe, async, application reference/release, time jumps across the session timeout and context teardown; session identity per peer tuple, one NEW/DEL event pair per server session, no reclamation while referenced, idle reclamation and eviction, and a leak/double-free/use-after-free-clean teardown (ASan, LSan, per-tag allocation counters). Stage c12many: 1..50 distinct peers x max_idle_sessions {0,1,2,3,7,N-1,N,N+1} x 6 request patterns against a model of the idle set (oldest idle reclaimed at the limit, held sessions never). Stage c12cli: two client sessions of one context, all sequences (depth 6/7) of send CON/NON, application release/reference, peer answer/reset, retransmission timer and give-up followed by teardown; a session must never be freed while the application or a queued Confirmable holds it and exactly once in the end. Spaces mops: a request to a multicast group whose response waits in the send queue for the leisure delay is the only holder of its server session.",
                 note="Bounds per evidence (old alphabet depth 5/6, enlarged alphabet with TCP peer / several observations / disconnect depth 4/5); peers <= 4 + one TCP peer."),
-    "C13": dict(engine="vx-sched", technique="preemption-bounded exhaustive exploration of thread interleavings under a cooperative scheduler over the real lock operations, scheduling points inside every application callback",
-                text="Real pthreads serialised by a futex hand-off scheduler with scheduling points at every global-lock operation and I/O wait; all schedules with <=2/3 preemptions of 2-3 API threads plus an I/O thread, callbacks re-entering the API; invariants: lock ownership on entry to every *_lkd function (via -finstrument-functions), no deadlock/livelock, lock free at the end; the library is compiled twice, with the configuration headers each of the repository's two build systems emits on the current tree (CMake configure: plain lock; autogen.sh + ./configure defaults: the recursive-check lock variant), and the whole exploration runs on both. Scenario families include call-outs nested inside callbacks and more ready sockets than one epoll_wait of the library takes.",
-                note="Sequential consistency assumed; scheduling points at lock operations, inside callbacks, I/O waits and a sleep operation; unsynchronised accesses inside correctly locked code are not looked for (the TSan pass of the design was not built); all callback kinds incl. ping/pong/cache/release/persistence call-outs re-enter the API."),
+    "C13": dict(engine="vx-sched", technique="preemption-bounded exhaustive exploration of thread interleavings under a cooperative scheduler over the real lock operations, scheduling points inside every application callback; vector-clock happens-before race detection over compiler-instrumented memory accesses on every explored schedule",
+                text="Real pthreads serialised by a futex hand-off scheduler with scheduling points at every global-lock operation and I/O wait; all schedules with <=2/3 preemptions of 2-3 API threads plus an I/O thread, callbacks re-entering the API; invariants: lock ownership on entry to every *_lkd function (via -finstrument-functions), no deadlock/livelock, lock free at the end; the library is compiled twice, with the configuration headers each of the repository's two build systems emits on the current tree (CMake configure: plain lock; autogen.sh + ./configure defaults: the recursive-check lock variant), and the whole exploration runs on both. Scenario families include call-outs nested inside callbacks and more ready sockets than one epoll_wait of the library takes. Stages c13race / c13raceat run the same exploration on library objects compiled with the compiler's memory-access instrumentation (-fsanitize=thread, compile only) against a happens-before detector of the harness (vector clocks per thread and per mutex; the scheduler's hand-offs are not synchronisation): on every explored schedule every byte of non-stack memory touched by library code must be ordered by lock operations between conflicting accesses of different threads.",
+                note="Sequential consistency assumed; scheduling points at lock operations, inside callbacks, I/O waits and a sleep operation; the race detector sees the library's own loads and stores (not those made inside libc / GnuTLS on its behalf) and reports three known unlocked-accessor findings (known_findings.json); all callback kinds incl. ping/pong/cache/release/persistence call-outs re-enter the API."),
     "C14": dict(engine="vx-inproc", technique="exhaustive product enumeration and exhaustive enumeration of exchange sequences (Observe register/cancel on two tokens) differential against an independent RFC 8613 implementation, exhaustive single-bit tampering",
                 text="Full product of message shapes x security contexts (ids 0-7 bytes, ID Context absent / 1 / 8 / 23 / 24 / 25 / 40 bytes, salt, secret) x partial IVs: libcoap's protected output must equal an independent RFC 8613 implementation (OpenSSL AES-CCM/HKDF, validated on the Appendix C vectors) byte for byte and unprotect to the original; every single-bit flip and truncation of the protected part and every one-parameter context change must be rejected. Stage c14seq: all histories (depth 5/6) of GET / Observe register / cancel on two tokens and resource changes against a real libcoap OSCORE server, and (depth 4/5) the same with tampered, replayed and unknown-kid datagrams in between: every response and notification must verify under the binding of the right request, rejected datagrams never reach a handler.",
                 note="Trusted: OpenSSL primitives, ref/refoscore.c validated by RFC 8613 Appendix C vectors."),
     "C15": dict(engine="vx-inproc", technique="explicit-state BFS over delivery histories on a real recipient context against a set-based replay-window reference; exhaustive crash-point enumeration on the sender",
-                text="All histories up to depth 4/6 over fresh(gap)/late/replay/forge deliveries to a real OSCORE recipient context for several window sizes and B.1.2 on/off: at-most-once acceptance, forgeries leave state and all depth-1 continuations unchanged; sender: every crash point between save callbacks for several ssn_freq, no partial IV reuse across restarts. Every protected datagram the recipient emits is filed under the nonce it uses (own Partial IV or the request's): two different ciphertexts under one nonce fail; under B.1.2 the first request is delivered twice. Forgeries include one with a ciphertext shorter than the authentication tag.",
+                text="All histories up to depth 4/6 over fresh(gap)/late/replay/forge deliveries to a real OSCORE recipient context for several window sizes and B.1.2 on/off: at-most-once acceptance, forgeries leave state and all depth-1 continuations unchanged; sender: every crash point between save callbacks for several ssn_freq, no partial IV reuse across restarts, including lineages that reach the end of the 40-bit Partial IV space. Every protected datagram the recipient emits is filed under the nonce it uses (own Partial IV or the request's): two different ciphertexts under one nonce fail; under B.1.2 the first request is delivered twice. Forgeries include one with a ciphertext shorter than the authentication tag.",
                 note="Bounds per evidence; forged/late messages are manufactured by the reference implementation."),
     "C16": dict(engine="vx-inproc", technique="exhaustive string enumeration over boundary alphabets with exact-size heap inputs (ASan) against an RFC 3986/7252 reference; exhaustive injectivity check",
                 text="All URI/path/query strings up to length 5-7 over boundary alphabets, all output buffer sizes, and all short segment lists over the full byte range through the public URI functions; results must equal an independent RFC 3986 / RFC 7252 6.4-6.5 reference, reconstruction must be injective and round-trip, and no byte outside the length-delimited input is read. Long segments (option header boundary, 255-byte limit) through every buffer size, also followed by dot-segments that remove later segments.",
@@ -60,7 +60,7 @@ META = {
                 text="For every scenario of a fixed catalogue and every index k of an allocation made through coap_malloc_type/coap_realloc_type, exactly the k-th allocation fails; no crash, no invalid access, no leak (LSan + per-tag counters), ownership rules hold, and follow-up canary exchanges with memory available succeed, one on a fresh session and one on the scenario's own session. Catalogue: request/response, async, Block1, Block2, observe, URI helpers, TCP, WebSocket, set-up/tear-down, raw block-wise peers without size options, OSCORE, resource discovery with a block-wise listing, 2500-byte bodies in 1024-byte blocks.",
                 note="Only allocations through libcoap's funnel; GnuTLS/uthash raw malloc outside."),
     "C19": dict(engine="vx-netsim", technique="deviation-bounded exhaustive schedule exploration of real DTLS (GnuTLS) client and server over the simulated network, credential product",
-                text="Real GnuTLS-backed DTLS client and server contexts over the simulated network with a virtual clock: product of client identity/key x server key table configurations, loss/duplication/reorder of handshake and record datagrams within a deviation bound, injected cleartext CoAP; handlers run only after a handshake with matching credentials, nothing queued leaves in clear, each queued CON gets exactly one NACK on failure, queued messages are delivered in order exactly once on success. The product is repeated with a client context in COAP_BLOCK_USE_LIBCOAP mode whose last queued Confirmable registers an observation. SNI scenarios are repeated after a refused attempt from the address and port of the client under test.",
+                text="Real GnuTLS-backed DTLS client and server contexts over the simulated network with a virtual clock: product of client identity/key x server key table configurations, loss/duplication/reorder of handshake and record datagrams within a deviation bound, cleartext CoAP injected at one step or before every step of the whole scenario (a persistent attacker, also between the abandonment of a stalled handshake and the reclamation of the dead session); handlers run only after a handshake with matching credentials, nothing queued leaves in clear, each queued CON gets exactly one NACK on failure, queued messages are delivered in order exactly once on success. The product is repeated with a client context in COAP_BLOCK_USE_LIBCOAP mode whose last queued Confirmable registers an observation. SNI scenarios are repeated after a refused attempt from the address and port of the client under test.",
                 note="PSK only, GnuTLS only; DTLS under loss/duplication/reordering, TLS (over the simulated TCP stream) for the credential product without faults; includes a server choosing the key by SNI with a filled SNI cache, servers without identity hint, survival of the loss of the first handshake flight."),
     "C20": dict(engine="vx-inproc", technique="exhaustive enumeration of resource tables x filters x all (offset, buffer length) windows against an RFC 6690 reference; exhaustive block-wise GET over the simulated network for tables x filters x Block2 sizes, differential against the in-process listing",
                 text="All subsets (<=3/4) of a catalogue of resource shapes x 15 filters x every (offset, buflen) window up to the listing length + 2 through coap_print_wellknown / coap_print_link; the full listing must equal the reference RFC 6690 listing as a set of links, every window must be exactly that slice with exact total length and truncation flag, nothing written outside the buffer. Stage c20get: block-wise GET of the listing by a raw client for tables x filters x Block2 sizes x size switch x {no / an application unknown-resource handler}, re-assembled body compared with the in-process listing, same ETag on every block.",
